@@ -67,6 +67,9 @@ partial def parseExpr (table : Array Expr) (j : Json) : Expr :=
   | "shift" => .shift (jint j "n") inner
   | "list" => .list (jS j "s") inner
   | "uniqueList" => .uniqueList (jS j "s") inner
+  | "tagF" => .tagF inner
+  | "styleF" => .styleF inner
+  | "unlessF" => .unlessF (parseTest (jget j "t")) inner
   | "multiParts" => .multiParts (jstrs j "xs") inner
   | "multiPartsN" => .multiPartsN (jS j "s") (jint j "n") inner
   | "batch" => .batch ((jarr j "es").toList.map (parseExpr table))
@@ -124,7 +127,7 @@ def exprKind : Expr → String
   | .filter .. => "filter" | .filterArgs .. => "filterArgs" | .filterParts .. => "filterParts"
   | .retain .. => "retain" | .pfx .. => "pfx" | .sfx .. => "sfx" | .style .. => "style" | .tag .. => "tag"
   | .usage .. => "usage" | .nospace .. => "nospace" | .suppress .. => "suppress" | .unless .. => "unless"
-  | .shift .. => "shift" | .list .. => "list" | .uniqueList .. => "uniqueList" | .multiParts .. => "multiParts"
+  | .shift .. => "shift" | .list .. => "list" | .uniqueList .. => "uniqueList" | .tagF .. => "tagF" | .styleF .. => "styleF" | .unlessF .. => "unlessF" | .multiParts .. => "multiParts"
   | .multiPartsN .. => "multiPartsN" | .batch .. => "batch" | .cond .. => "cond" | .withCtx .. => "withCtx"
 
 /-- the text of `w` up to and including the last occurrence of `div` (the completed parts) -/
@@ -219,7 +222,7 @@ def checkFrame (e : Expr) (c : Ctx) (real inner : Invoked) : List AFail :=
 partial def hasMultiParts : Expr → Bool
   | .multiParts .. => true
   | .filter _ e | .filterArgs e | .filterParts e | .retain _ e | .pfx _ e | .sfx _ e | .style _ e | .tag _ e
-  | .usage _ e | .nospace _ e | .suppress _ e | .unless _ e | .shift _ e | .list _ e | .uniqueList _ e
+  | .usage _ e | .nospace _ e | .suppress _ e | .unless _ e | .shift _ e | .list _ e | .uniqueList _ e | .tagF e | .styleF e | .unlessF _ e
   | .multiPartsN _ _ e | .withCtx _ e => hasMultiParts e
   | .batch es => es.any hasMultiParts
   | .cond _ a b => hasMultiParts a || hasMultiParts b
